@@ -40,7 +40,7 @@ Trace == ndJsonDeserialize(IOEnv.TRACE)
 
 VARIABLES l,      \* next line to consume
           B, S,   \* resource state
-          seg,    \* <<history id, fault point>> of the current segment
+          seg,    \* <<history id, fault point, 1 if the elements are silent>> of the current segment
           cur,    \* name of the operation in progress (from OpBegin)
           nalloc, \* allocations since OpBegin
           skip    \* TRUE after a violation / terminate: ignore events until the next Reset
@@ -101,7 +101,9 @@ HandleOK(h) ==
   IF h[3] = 0 THEN TRUE     \* an array without elements owns nothing (its data pointer is not observable behaviour)
   ELSE /\ LiveBlk(h[2])
        /\ B[h[2]].n = h[3]
-       /\ \A k \in 1..h[3] : B[h[2]].cells[k] = Alive
+       \* (seg[3] = 1: the element type is trivially copyable and destructible and emits no events of its own; only the
+       \*  blocks are followed)
+       /\ (seg[3] = 1 \/ \A k \in 1..h[3] : B[h[2]].cells[k] = Alive)
        /\ B[h[2]].cls = h[5]
 Owned == {Handles[k][2] : k \in {j \in 1..Len(Handles) : Handles[j][3] > 0}}
 Outstanding == {b \in DOMAIN B : ~B[b].freed /\ B[b].n > 0}
@@ -119,7 +121,7 @@ OpEndRule ==
 
 Terminated == Ev.e = "OpEnd" /\ Ev.how = "terminated"
 
-MInit == l = 1 /\ B = NoBlocks /\ S = {} /\ seg = <<-1, -1>> /\ cur = "none" /\ nalloc = 0 /\ skip = FALSE
+MInit == l = 1 /\ B = NoBlocks /\ S = {} /\ seg = <<-1, -1, 0>> /\ cur = "none" /\ nalloc = 0 /\ skip = FALSE
 
 MStep ==
   /\ l <= Len(Trace)
@@ -127,7 +129,7 @@ MStep ==
   /\ cur' = IF Ev.e = "OpBegin" THEN Ev.how ELSE IF Ev.e = "Reset" THEN "none" ELSE cur
   /\ nalloc' = IF Ev.e \in {"OpBegin", "Reset"} THEN 0 ELSE IF Ev.e = "Alloc" /\ ~skip THEN nalloc + 1 ELSE nalloc
   /\ IF Ev.e = "Reset"
-     THEN B' = NoBlocks /\ S' = {} /\ seg' = <<Ev.blk, Ev.i>> /\ skip' = FALSE
+     THEN B' = NoBlocks /\ S' = {} /\ seg' = <<Ev.blk, Ev.i, Ev.sblk>> /\ skip' = FALSE
      ELSE IF skip THEN UNCHANGED <<B, S, seg, skip>>
      ELSE IF Terminated
           THEN /\ Complain(IF seg[2] >= 0 THEN "ReachesCaller" ELSE "Aborted")
